@@ -529,9 +529,22 @@ class MirFile:
                 k = self._name_end(rest)
                 name = rest[:k]
             else:
-                k = rest.find(": ")
+                k = self._colon_top(rest)
                 name = rest[:k]
             self.items.setdefault(name, []).append((kind, i))
+
+    @staticmethod
+    def _colon_top(rest):
+        """index of the `: ` that separates an item name from its type (outside <...>)"""
+        depth = 0
+        for i, c in enumerate(rest):
+            if c == "<":
+                depth += 1
+            elif c == ">" and not (i > 0 and rest[i - 1] in "-="):
+                depth -= 1
+            elif c == ":" and depth == 0 and rest[i + 1:i + 2] == " ":
+                return i
+        return rest.find(": ")
 
     @staticmethod
     def _name_end(rest):
@@ -593,7 +606,7 @@ class MirFile:
             assert r.startswith("-> ") and r.endswith("{"), head
             f.ret_ty = r[3:-1].strip()
         else:
-            k = rest.find(": ")
+            k = self._colon_top(rest)
             name = rest[:k]
             f = Function(name, kind, start)
             r = rest[k + 2:]
